@@ -162,6 +162,55 @@ Proof.
     destruct H as [H|H]; eauto.
 Qed.
 
+(* ---- a break/continue not enclosed by a loop of the fragment is the only source of a
+   path ending in break/continue *)
+
+Lemma no_free_jump_outcome :
+  (forall s, free_jump s = false -> forall o t, path_s s o t -> ~ is_jump o) /\
+  (forall b, free_jump_b b = false -> forall o t, path_b b o t -> ~ is_jump o) /\
+  (forall hs, free_jump_hs hs = false -> forall o t, path_hs hs o t -> ~ is_jump o).
+Proof.
+  unfold is_jump.
+  apply syntax_mutind; cbn [path_s path_b path_hs free_jump free_jump_b free_jump_hs].
+  - intros v d _ o t [-> _] [H|H]; discriminate.
+  - intros v u _ o t [-> _] [H|H]; discriminate.
+  - intros _ o t [[-> | ->] _] [H|H]; discriminate.
+  - intros _ o t [-> _] [H|H]; discriminate.
+  - intros _ o t [-> _] [H|H]; discriminate.
+  - intros _ o t [-> _] [H|H]; discriminate.
+  - intros H; discriminate.
+  - intros H; discriminate.
+  - intros b IHb e IHe Hj o t [H|H]; apply orb_false_iff in Hj; destruct Hj; eauto.
+  - intros fv b IHb e IHe Hj o t (th & t2 & _ & _ & H).
+    destruct H as [[_ H]|[[-> H]|[[-> | ->] H]]]; eauto; intros [X|X]; discriminate.
+  - intros sup b IHb Hj o t [H|(_ & -> & H)]; eauto. intros [X|X]; discriminate.
+  - intros b IHb hs IHhs e IHe f IHf Hj o t (o1 & t1 & o2 & t2 & Hte & Hf & _ & ->).
+    apply orb_false_iff in Hj. destruct Hj as [Hj Hjf]. apply orb_false_iff in Hj. destruct Hj as [Hj Hje].
+    apply orb_false_iff in Hj. destruct Hj as [Hjb Hjh].
+    assert (H1 : ~ (o1 = OBrk \/ o1 = OCont)).
+    { destruct Hte as [(ta & tb & Ha & Hb & _)|[(_ & Ha)|(tx & Hx & [(th & Hh & _)|(-> & _)])]]; eauto.
+    }
+    pose proof (IHf Hjf _ _ Hf) as H2.
+    destruct o2; auto.
+  - intros _ o t [-> _] [H|H]; discriminate.
+  - intros s IHs r IHr Hj o t H. apply orb_false_iff in Hj. destruct Hj as [Hs Hr].
+    destruct H as [(t1 & t2 & H1 & H2 & _)|(_ & H)]; eauto.
+  - intros _ o t [].
+  - intros h IHh r IHr Hj o t H. apply orb_false_iff in Hj. destruct Hj as [Hh Hr].
+    destruct H as [H|H]; eauto.
+Qed.
+
+Lemma sets_ll_free :
+  (forall s, free_jump s = false -> sets_ll s = false) /\
+  (forall b, free_jump_b b = false -> sets_ll_b b = false) /\
+  (forall hs : handlers, True).
+Proof.
+  apply syntax_mutind; cbn [free_jump free_jump_b sets_ll sets_ll_b]; auto; try (intros; discriminate).
+  - intros sup b IHb H. destruct sup; auto.
+  - intros s IHs r IHr H. apply orb_false_iff in H. destruct H as [H1 H2].
+    rewrite (IHs H1), (IHr H2). reflexivity.
+Qed.
+
 (* ---- the soundness invariant, by mutual induction on the syntax *)
 
 Definition snd_ok (st st' : state) (P : trace -> var -> N -> Prop) (Q : trace -> Prop) : Prop :=
@@ -169,29 +218,69 @@ Definition snd_ok (st st' : state) (P : trace -> var -> N -> Prop) (Q : trace ->
   (forall t, Q t -> live (cur st') /\
      forall v d0, satv v d0 (cur st) -> satv v (applyv t v d0) (cur st')).
 
-Definition P_s (s : stmt) : Prop := has_jump s = false -> forall st,
+(* the scopes that stand for "left the loop body here": the current dict (when it
+   holds LEAVES_LOOP) and current_loop_scopes *)
+Definition exits (st : state) : list scope := cur st :: loops st.
+
+(* every path ending in break/continue is covered by one of the scopes E: it holds
+   LEAVES_LOOP, not LEAVES_SCOPE, has at least the keys of the entry dict c0, and covers the
+   concrete binding of every variable *)
+Definition lcl (c0 : scope) (E : list scope) (Q : outcome -> trace -> Prop) : Prop :=
+  forall o t, is_jump o -> Q o t ->
+  exists sc, In sc E /\ ll sc = true /\ ls sc = false /\ kle (vars c0) (vars sc) /\
+     forall v d0, satv v d0 c0 -> satv v (applyv t v d0) sc.
+
+Definition P_s (s : stmt) : Prop := lower_ok_s s = true -> forall st,
   grow st (visit_s s st) /\ kle (vars (cur st)) (vars (cur (visit_s s st))) /\
-  (live (cur st) -> snd_ok st (visit_s s st) (upath_s s) (path_s s ONorm)).
+  incl (loops st) (loops (visit_s s st)) /\
+  (sets_ll s = false -> ll (cur (visit_s s st)) = ll (cur st)) /\
+  (live (cur st) -> snd_ok st (visit_s s st) (upath_s s) (path_s s ONorm) /\
+                    lcl (cur st) (exits (visit_s s st)) (path_s s)).
 
-Definition P_b (b : block) : Prop := has_jump_b b = false -> forall st,
+Definition P_b (b : block) : Prop := lower_ok_b b = true -> forall st,
   grow st (visit_b b st) /\ kle (vars (cur st)) (vars (cur (visit_b b st))) /\
-  (live (cur st) -> snd_ok st (visit_b b st) (upath_b b) (path_b b ONorm)).
+  incl (loops st) (loops (visit_b b st)) /\
+  (sets_ll_b b = false -> ll (cur (visit_b b st)) = ll (cur st)) /\
+  (live (cur st) -> snd_ok st (visit_b b st) (upath_b b) (path_b b ONorm) /\
+                    lcl (cur st) (exits (visit_b b st)) (path_b b)).
 
-Definition P_hs (hs : handlers) : Prop := has_jump_hs hs = false -> forall dummy failure o,
+Definition P_hs (hs : handlers) : Prop := lower_ok_hs hs = true -> forall dummy failure o,
   grow o (snd (visit_hs hs dummy failure o)) /\
   cur (snd (visit_hs hs dummy failure o)) = cur o /\
+  incl (loops o) (loops (snd (visit_hs hs dummy failure o))) /\
   Forall (fun h => kle (vars (cur o)) (vars h)) (fst (visit_hs hs dummy failure o)) /\
   (ll (cur o) = false -> keeps failure = true -> kle (vars (cur o)) (vars failure) ->
      (forall t v u d0, upath_hs hs t v u -> satv v d0 failure ->
          In (u, applyv t v d0) (u2d (snd (visit_hs hs dummy failure o)))) /\
      (forall t, path_hs hs ONorm t -> exists h, In h (fst (visit_hs hs dummy failure o)) /\ keeps h = true /\
-         forall v d0, satv v d0 failure -> satv v (applyv t v d0) h)).
+         forall v d0, satv v d0 failure -> satv v (applyv t v d0) h) /\
+     (forall o' t, is_jump o' -> path_hs hs o' t ->
+         exists sc, In sc (fst (visit_hs hs dummy failure o) ++ loops (snd (visit_hs hs dummy failure o))) /\
+           ll sc = true /\ ls sc = false /\ kle (vars (cur o)) (vars sc) /\
+           forall v d0, satv v d0 failure -> satv v (applyv t v d0) sc)).
 
 Lemma enter_live : forall st, live (cur st) -> live (cur (enter st)).
 Proof. intros st [H1 H2]. split; cbn; auto. Qed.
 
 Lemma live_strip : forall c, ll c = false -> live (strip_ls c).
 Proof. intros c H. split; cbn; auto. Qed.
+
+Lemma combine_loops_in : forall S st sc, In sc S -> ll sc = true -> In sc (loops (combine S st)).
+Proof.
+  intros S st sc H1 H2. unfold combine. cbn [loops]. apply in_or_app. right.
+  unfold diverted. apply filter_In. auto.
+Qed.
+
+Lemma combine_loops_incl : forall S st, incl (loops st) (loops (combine S st)).
+Proof. intros S st x H. unfold combine. cbn [loops]. apply in_or_app. left. exact H. Qed.
+
+(* a LEAVES_LOOP scope of a sub-visit stays an exit scope of the enclosing visit *)
+Lemma exits_flow : forall s1 (L : list scope) sc, In sc (exits s1) -> ll sc = true ->
+  (ll (cur s1) = true -> In (cur s1) L) -> incl (loops s1) L -> In sc L.
+Proof. intros s1 L sc [<-|H] Hll H1 H2; auto. Qed.
+
+Lemma jump_not_norm : forall o, is_jump o -> o <> ONorm.
+Proof. intros o [->| ->]; discriminate. Qed.
 
 Lemma path_te_assigned : forall b hs e o1 t1, path_te b hs e o1 t1 ->
   incl t1 (assigned_b b ++ assigned_hs hs ++ assigned_b e).
@@ -211,6 +300,15 @@ Proof.
   destruct (applyv_in t v d0) as [H|H]; [left; exact H|right; apply Hi; exact H].
 Qed.
 
+Lemma suppress_loops_incl : forall G st0 s1, incl (loops s1) (loops (snd (suppress_leave G st0 s1))).
+Proof. intros. unfold suppress_leave. cbn [snd]. apply (combine_loops_incl _ (restore st0 s1)). Qed.
+
+Lemma suppress_inner_loops : forall G st0 s1, ll (cur s1) = true ->
+  In (cur s1) (loops (snd (suppress_leave G st0 s1))).
+Proof.
+  intros. unfold suppress_leave. cbn [snd]. apply combine_loops_in; [right; right; left; reflexivity|assumption].
+Qed.
+
 Lemma loop_st2_u2d : forall fv st o2, u2d (loop_st2 fv st o2) = u2d o2.
 Proof. intros [] st o2; reflexivity. Qed.
 Lemma loop_else_entry_u2d : forall fv e st2 o2, u2d (loop_else_entry fv e st2 o2) = u2d st2.
@@ -219,25 +317,49 @@ Lemma loop_finish_u2d : forall fv L st5, u2d (loop_finish fv L st5) = u2d st5.
 Proof. intros fv L st5. unfold loop_finish. destruct (fv && _); reflexivity. Qed.
 Lemma loop_finish_vars : forall fv L st5, vars (cur (loop_finish fv L st5)) = vars (cur st5).
 Proof. intros fv L st5. unfold loop_finish. destruct (fv && _); reflexivity. Qed.
+Lemma loop_finish_loops : forall fv L st5, loops (loop_finish fv L st5) = loops st5.
+Proof. intros fv L st5. unfold loop_finish. destruct (fv && _); reflexivity. Qed.
+Lemma loop_finish_ll : forall fv L st5, ll (cur (loop_finish fv L st5)) = ll (cur st5).
+Proof. intros fv L st5. unfold loop_finish. destruct (fv && _); reflexivity. Qed.
+Lemma loop_finish_keep : forall fv L st5 sc, In sc L -> ll sc = true -> loop_finish fv L st5 = st5.
+Proof.
+  intros fv L st5 sc Hin Hll. unfold loop_finish.
+  destruct (forallb (fun sc0 => negb (ll sc0)) L) eqn:E.
+  - rewrite forallb_forall in E. specialize (E sc Hin). rewrite Hll in E. discriminate.
+  - rewrite andb_false_r. reflexivity.
+Qed.
 Lemma loop_st2_kle : forall fv st o2, kle (vars (cur st)) (vars (cur (loop_st2 fv st o2))).
 Proof. intros [] st o2; unfold loop_st2. apply (combine_kle _ (restore st o2)). apply kle_refl. Qed.
+Lemma loop_st2_loops : forall fv st o2, incl (loops o2) (loops (loop_st2 fv st o2)).
+Proof. intros [] st o2; unfold loop_st2. apply (combine_loops_incl _ (restore st o2)). apply incl_refl. Qed.
+Lemma loop_st2_ll : forall fv st o2, ll (cur (loop_st2 fv st o2)) = ll (cur st).
+Proof. intros [] st o2; reflexivity. Qed.
+Lemma loop_else_entry_loops : forall fv e st2 o2, incl (loops st2) (loops (loop_else_entry fv e st2 o2)).
+Proof.
+  intros fv e st2 o2. unfold loop_else_entry. destruct (negb (is_nil e) && negb fv).
+  - apply (combine_loops_incl _ (enter st2)).
+  - apply incl_refl.
+Qed.
 
 Lemma case_if : forall b e, P_b b -> P_b e -> P_s (SIf b e).
 Proof.
-  intros b e IHb IHe Hj st. cbn [has_jump] in Hj. apply orb_false_iff in Hj. destruct Hj as [Hjb Hje].
+  intros b e IHb IHe Hok st. cbn [lower_ok_s] in Hok. apply andb_true_iff in Hok. destruct Hok as [Hokb Hoke].
   cbn [visit_s].
   set (s1 := visit_b b (enter st)).
   set (s2 := visit_b e (if_mid st s1)).
-  destruct (IHb Hjb (enter st)) as (Gb & Kb & Sb). fold s1 in Gb, Kb, Sb.
-  destruct (IHe Hje (if_mid st s1)) as (Ge & Ke & Se). fold s2 in Ge, Ke, Se.
+  destruct (IHb Hokb (enter st)) as (Gb & Kb & Lb & _ & Sb). fold s1 in Gb, Kb, Lb, Sb.
+  destruct (IHe Hoke (if_mid st s1)) as (Ge & Ke & Le & _ & Se). fold s2 in Ge, Ke, Le, Se.
   assert (G : grow st (if_finish st s1 s2)).
   { intros x Hx. apply Ge. apply Gb. exact Hx. }
-  split; [exact G|]. split.
-  { apply (combine_kle _ (restore (restore st s1) s2)). }
+  assert (L2 : incl (loops s2) (loops (if_finish st s1 s2))).
+  { apply (combine_loops_incl _ (restore (restore st s1) s2)). }
+  split; [exact G|]. split; [apply (combine_kle _ (restore (restore st s1) s2))|].
+  split; [intros x Hx; apply L2; apply Le; apply Lb; exact Hx|].
+  split; [intros _; reflexivity|].
   intros Hl.
-  destruct (Sb (enter_live _ Hl)) as (Ub & Nb).
-  destruct (Se (enter_live (restore st s1) Hl)) as (Ue & Ne).
-  split.
+  destruct (Sb (enter_live _ Hl)) as ((Ub & Nb) & Cb).
+  destruct (Se (enter_live (restore st s1) Hl)) as ((Ue & Ne) & Ce).
+  split; [split|].
   - intros t v u d0 [H|H] Hs.
     + apply Ge. eapply Ub; eauto.
     + eapply Ue; eauto.
@@ -250,61 +372,101 @@ Proof.
       * eapply combine_live with (sc := cur s2); [right; left; reflexivity|apply live_keeps; exact L1|exact Hl].
       * intros v d0 Hs. eapply combine_sat with (sc := cur s2); [right; left; reflexivity|apply live_keeps; exact L1|exact Ke|].
         apply S1. exact Hs.
+  - intros o t Hj [H|H].
+    + destruct (Cb o t Hj H) as (sc & Hin & Hll & Hls & Hk & Hs). exists sc.
+      split; [|split; [exact Hll|split; [exact Hls|split; [exact Hk|exact Hs]]]].
+      right. apply (exits_flow s1 _ sc Hin Hll).
+      * intros X. apply combine_loops_in; [left; reflexivity|exact X].
+      * intros x Hx. apply L2. apply Le. exact Hx.
+    + destruct (Ce o t Hj H) as (sc & Hin & Hll & Hls & Hk & Hs). exists sc.
+      split; [|split; [exact Hll|split; [exact Hls|split; [exact Hk|exact Hs]]]].
+      right. apply (exits_flow s2 _ sc Hin Hll).
+      * intros X. apply combine_loops_in; [right; left; reflexivity|exact X].
+      * exact L2.
 Qed.
 
 Lemma case_with : forall sup b, P_b b -> P_s (SWith sup b).
 Proof.
-  intros sup b IHb Hj st. cbn [has_jump] in Hj. cbn [visit_s].
+  intros sup b IHb Hok st. cbn [lower_ok_s] in Hok. cbn [visit_s].
   destruct sup.
   - set (s1 := visit_b b (enter st)).
-    destruct (IHb Hj (enter st)) as (Gb & Kb & Sb). fold s1 in Gb, Kb, Sb.
+    destruct (IHb Hok (enter st)) as (Gb & Kb & Lb & _ & Sb). fold s1 in Gb, Kb, Lb, Sb.
     split; [exact Gb|]. split; [apply suppress_kle|].
-    intros Hl. destruct (Sb (enter_live _ Hl)) as (Ub & Nb).
+    split; [intros x Hx; apply suppress_loops_incl; apply Lb; exact Hx|].
+    split; [intros _; reflexivity|].
+    intros Hl. destruct (Sb (enter_live _ Hl)) as ((Ub & Nb) & Cb).
     destruct path_assigned as (_ & Pb & _).
-    split.
+    split; [split|].
     + intros t v u d0 H Hs. cbn [upath_s] in H. eapply Ub; eauto.
     + intros t H. split; [apply suppress_live; exact Hl|].
       intros v d0 Hs. apply suppress_path_sat; auto.
       cbn [path_s] in H. destruct H as [H|(_ & _ & H)]; eauto.
-  - destruct (IHb Hj st) as (Gb & Kb & Sb).
-    split; [exact Gb|]. split; [exact Kb|].
-    intros Hl. destruct (Sb Hl) as (Ub & Nb). split.
+    + intros o t Hj H. cbn [path_s] in H.
+      destruct H as [H|(_ & X & _)]; [|exfalso; apply (jump_not_norm o Hj X)].
+      destruct (Cb o t Hj H) as (sc & Hin & Hll & Hls & Hk & Hs). exists sc.
+      split; [|split; [exact Hll|split; [exact Hls|split; [exact Hk|exact Hs]]]].
+      right. apply (exits_flow s1 _ sc Hin Hll).
+      * apply suppress_inner_loops.
+      * apply suppress_loops_incl.
+  - destruct (IHb Hok st) as (Gb & Kb & Lb & Mb & Sb).
+    split; [exact Gb|]. split; [exact Kb|]. split; [exact Lb|]. split; [exact Mb|].
+    intros Hl. destruct (Sb Hl) as ((Ub & Nb) & Cb). split; [split|].
     + intros t v u d0 H Hs. cbn [upath_s] in H. eauto.
     + intros t H. cbn [path_s] in H. destruct H as [H|(X & _)]; [auto|discriminate].
+    + intros o t Hj H. cbn [path_s] in H. destruct H as [H|(X & _)]; [eauto|discriminate].
 Qed.
 
 Lemma case_bcons : forall s r, P_s s -> P_b r -> P_b (BCons s r).
 Proof.
-  intros s r IHs IHr Hj st. cbn [has_jump_b] in Hj. apply orb_false_iff in Hj. destruct Hj as [Hjs Hjr].
+  intros s r IHs IHr Hok st. cbn [lower_ok_b] in Hok.
+  apply andb_true_iff in Hok. destruct Hok as [Hok Hlast]. apply andb_true_iff in Hok. destruct Hok as [Hoks Hokr].
   cbn [visit_b].
   set (st1 := visit_s s st).
-  destruct (IHs Hjs st) as (Gs & Ks & Ss). fold st1 in Gs, Ks, Ss.
-  destruct (IHr Hjr st1) as (Gr & Kr & Sr).
+  destruct (IHs Hoks st) as (Gs & Ks & Ls & Ms & Ss). fold st1 in Gs, Ks, Ls, Ms, Ss.
+  destruct (IHr Hokr st1) as (Gr & Kr & Lr & Mr & Sr).
   split; [eapply grow_trans; eauto|]. split; [eapply kle_trans; eauto|].
-  intros Hl. destruct (Ss Hl) as (Us & Ns). split.
+  split; [intros x Hx; apply Lr; apply Ls; exact Hx|].
+  split.
+  { intros H. cbn [sets_ll_b] in H. apply orb_false_iff in H. destruct H as [H1 H2].
+    rewrite (Mr H2). apply Ms. exact H1. }
+  intros Hl. destruct (Ss Hl) as ((Us & Ns) & Cs). split; [split|].
   - intros t v u d0 H Hs. cbn [upath_b] in H. destruct H as [H|(t1 & t2 & H1 & H2 & ->)].
     + apply Gr. eapply Us; eauto.
-    + destruct (Ns t1 H1) as (L1 & S1). destruct (Sr L1) as (Ur & _).
+    + destruct (Ns t1 H1) as (L1 & S1). destruct (Sr L1) as ((Ur & _) & _).
       rewrite applyv_app. eapply Ur; eauto.
   - intros t H. cbn [path_b] in H. destruct H as [(t1 & t2 & H1 & H2 & ->)|(X & _)]; [|contradiction].
-    destruct (Ns t1 H1) as (L1 & S1). destruct (Sr L1) as (_ & Nr).
+    destruct (Ns t1 H1) as (L1 & S1). destruct (Sr L1) as ((_ & Nr) & _).
     destruct (Nr t2 H2) as (L2 & S2). split; [exact L2|].
     intros v d0 Hs. rewrite applyv_app. apply S2. apply S1. exact Hs.
+  - intros o t Hj H. cbn [path_b] in H. destruct H as [(t1 & t2 & H1 & H2 & ->)|(_ & H)].
+    + destruct (Ns t1 H1) as (L1 & S1). destruct (Sr L1) as (_ & Cr).
+      destruct (Cr o t2 Hj H2) as (sc & Hin & Hll & Hls & Hk & Hs). exists sc.
+      split; [exact Hin|]. split; [exact Hll|]. split; [exact Hls|]. split; [eapply kle_trans; eauto|].
+      intros v d0 Hv. rewrite applyv_app. apply Hs. apply S1. exact Hv.
+    + destruct (Cs o t Hj H) as (sc & Hin & Hll & Hls & Hk & Hs). exists sc.
+      split; [|split; [exact Hll|split; [exact Hls|split; [exact Hk|exact Hs]]]].
+      destruct Hin as [<-|Hin].
+      * destruct (sets_ll s) eqn:E.
+        -- cbn in Hlast. destruct r; [left; reflexivity|discriminate].
+        -- exfalso. rewrite (Ms eq_refl) in Hll. destruct Hl as [_ Hl2]. rewrite Hl2 in Hll. discriminate.
+      * right. apply Lr. exact Hin.
 Qed.
 
 Lemma case_hcons : forall h r, P_b h -> P_hs r -> P_hs (HCons h r).
 Proof.
-  intros h r IHh IHr Hj dummy failure o. cbn [has_jump_hs] in Hj. apply orb_false_iff in Hj. destruct Hj as [Hjh Hjr].
+  intros h r IHh IHr Hok dummy failure o. cbn [lower_ok_hs] in Hok. apply andb_true_iff in Hok. destruct Hok as [Hokh Hokr].
   cbn [visit_hs].
   set (en := combine [dummy; failure] (enter o)).
   set (h2 := visit_b h en).
   set (rr := visit_hs r dummy failure (restore o h2)).
   cbn [fst snd].
-  destruct (IHh Hjh en) as (Gh & Kh & Sh). fold h2 in Gh, Kh, Sh.
-  destruct (IHr Hjr dummy failure (restore o h2)) as (Gr & Cr & Fr & Sr). fold rr in Gr, Cr, Fr, Sr.
+  destruct (IHh Hokh en) as (Gh & Kh & Lh & _ & Sh). fold h2 in Gh, Kh, Lh, Sh.
+  destruct (IHr Hokr dummy failure (restore o h2)) as (Gr & Cr & Lr & Fr & Sr). fold rr in Gr, Cr, Lr, Fr, Sr.
   assert (Ken : kle (vars (cur o)) (vars (cur en))) by (apply (combine_kle _ (enter o))).
+  assert (Len' : incl (loops o) (loops en)) by (apply (combine_loops_incl _ (enter o))).
   split; [intros x Hx; apply Gr; apply Gh; exact Hx|].
   split; [exact Cr|].
+  split; [intros x Hx; apply Lr; apply Lh; apply Len'; exact Hx|].
   split; [constructor; [eapply kle_trans; eauto|exact Fr]|].
   intros Hll Hk Hkle.
   assert (Hlo : live (cur (enter o))) by (apply live_strip; exact Hll).
@@ -312,9 +474,9 @@ Proof.
   { eapply combine_live with (sc := failure); [right; left; reflexivity|exact Hk|exact Hlo]. }
   assert (Sen : forall v d0, satv v d0 failure -> satv v d0 (cur en)).
   { intros v d0 Hs. eapply combine_sat with (sc := failure); [right; left; reflexivity|exact Hk|exact Hkle|exact Hs]. }
-  destruct (Sh Len) as (Uh & Nh).
-  destruct (Sr Hll Hk Hkle) as (Ur & Nr).
-  split.
+  destruct (Sh Len) as ((Uh & Nh) & Ch).
+  destruct (Sr Hll Hk Hkle) as (Ur & Nr & Cr').
+  split; [|split].
   - intros t v u d0 H Hs. cbn [upath_hs] in H. destruct H as [H|H].
     + apply Gr. eapply Uh; eauto.
     + eapply Ur; eauto.
@@ -322,6 +484,16 @@ Proof.
     + destruct (Nh t H) as (L1 & S1). exists (cur h2). split; [left; reflexivity|]. split; [apply live_keeps; exact L1|].
       intros v d0 Hs. apply S1. apply Sen. exact Hs.
     + destruct (Nr t H) as (x & Hx & Kx & Sx). exists x. split; [right; exact Hx|]. split; auto.
+  - intros o' t Hj H. cbn [path_hs] in H. destruct H as [H|H].
+    + destruct (Ch o' t Hj H) as (sc & Hin & Hl1 & Hl2 & Hk1 & Hs). exists sc.
+      split; [|split; [exact Hl1|split; [exact Hl2|split; [exact (kle_trans _ _ _ Ken Hk1)|]]]].
+      * destruct Hin as [<-|Hin]; [left; reflexivity|].
+        right. apply in_or_app. right. apply Lr. exact Hin.
+      * intros v d0 Hv. apply Hs. apply Sen. exact Hv.
+    + destruct (Cr' o' t Hj H) as (sc & Hin & Hl1 & Hl2 & Hk1 & Hs). exists sc.
+      split; [|split; [exact Hl1|split; [exact Hl2|split; [exact Hk1|exact Hs]]]].
+      apply in_app_or in Hin. destruct Hin as [Hin|Hin]; [right; apply in_or_app; left; exact Hin|].
+      right. apply in_or_app. right. exact Hin.
 Qed.
 
 (* visit_try_except, as a function of the state before it *)
@@ -338,12 +510,15 @@ Definition upath_te (b : block) (hs : handlers) (e : block) (t : trace) (v : var
   (exists tx th, path_b b OExc tx /\ upath_hs hs th v u /\ t = tx ++ th).
 
 Lemma try_except_ok : forall b hs e, P_b b -> P_hs hs -> P_b e ->
-  has_jump_b b = false -> has_jump_hs hs = false -> has_jump_b e = false ->
+  lower_ok_b b = true -> lower_ok_hs hs = true -> lower_ok_b e = true ->
   forall st,
   grow st (try_except b hs e st) /\ kle (vars (cur st)) (vars (cur (try_except b hs e st))) /\
-  (live (cur st) -> snd_ok st (try_except b hs e st) (upath_te b hs e) (path_te b hs e ONorm)).
+  incl (loops st) (loops (try_except b hs e st)) /\
+  ll (cur (try_except b hs e st)) = ll (cur st) /\
+  (live (cur st) -> snd_ok st (try_except b hs e st) (upath_te b hs e) (path_te b hs e ONorm) /\
+                    lcl (cur st) (exits (try_except b hs e st)) (path_te b hs e)).
 Proof.
-  intros b hs e IHb IHhs IHe Hjb Hjh Hje st. unfold try_except.
+  intros b hs e IHb IHhs IHe Hokb Hokh Hoke st. unfold try_except.
   set (s1 := visit_b b (te_body_entry st)).
   set (sf := te_after_body b st s1).
   set (e1 := te_else_entry st sf).
@@ -352,18 +527,27 @@ Proof.
   set (failure := cur (snd sf)).
   set (o3 := te_handlers_entry st sf e2).
   set (hr := visit_hs hs dummy failure o3).
-  destruct (IHb Hjb (te_body_entry st)) as (Gb & Kb & Sb). fold s1 in Gb, Kb, Sb.
-  destruct (IHe Hje e1) as (Ge & Ke & Se). fold e2 in Ge, Ke, Se.
-  destruct (IHhs Hjh dummy failure o3) as (Gh & Ch & Fh & Sh). fold hr in Gh, Ch, Fh, Sh.
+  destruct (IHb Hokb (te_body_entry st)) as (Gb & Kb & Lb & _ & Sb). fold s1 in Gb, Kb, Lb, Sb.
+  destruct (IHe Hoke e1) as (Ge & Ke & Le & _ & Se). fold e2 in Ge, Ke, Le, Se.
+  destruct (IHhs Hokh dummy failure o3) as (Gh & Ch & Lh & Fh & Sh). fold hr in Gh, Ch, Lh, Fh, Sh.
   assert (G1 : grow st e2).
   { intros x Hx. apply Ge. apply Gb. exact Hx. }
   assert (G : grow st (te_finish st e2 hr)).
   { intros x Hx. apply Gh. apply G1. exact Hx. }
+  assert (Lsf : incl (loops s1) (loops (snd sf))) by apply suppress_loops_incl.
+  assert (Le1 : incl (loops (snd sf)) (loops e1)).
+  { apply (combine_loops_incl _ (enter (restore (enter st) (snd sf)))). }
+  assert (Lfin : incl (loops (snd hr)) (loops (te_finish st e2 hr))).
+  { apply (combine_loops_incl _ (restore st (snd hr))). }
+  assert (Le2fin : incl (loops e2) (loops (te_finish st e2 hr))).
+  { intros x Hx. apply Lfin. apply Lh. exact Hx. }
   split; [exact G|]. split; [apply (combine_kle _ (restore st (snd hr)))|].
+  split; [intros x Hx; apply Le2fin; apply Le; apply Le1; apply Lsf; apply Lb; exact Hx|].
+  split; [reflexivity|].
   intros Hl.
   assert (Hl3 : live (cur (te_body_entry st))) by (destruct Hl; split; cbn; auto).
   assert (Hl2 : live (cur (enter (enter st)))) by (destruct Hl; split; cbn; auto).
-  destruct (Sb Hl3) as (Ub & Nb).
+  destruct (Sb Hl3) as ((Ub & Nb) & Cb).
   destruct path_assigned as (_ & Pb & _).
   assert (Lf : live failure) by (apply suppress_live; exact Hl2).
   assert (Sf : forall o tx v d0, path_b b o tx -> satv v d0 (cur st) -> satv v (applyv tx v d0) failure).
@@ -379,16 +563,16 @@ Proof.
       apply S1. exact Hs. }
   assert (Hll3 : ll (cur o3) = false) by (cbn; destruct Hl; auto).
   assert (Kf : kle (vars (cur o3)) (vars failure)) by (apply (suppress_kle _ (enter (enter st)) s1)).
-  destruct (Sh Hll3 (live_keeps _ Lf) Kf) as (Uh & Nh).
-  split.
+  destruct (Sh Hll3 (live_keeps _ Lf) Kf) as (Uh & Nh & Chh).
+  split; [split|].
   - intros t v u d0 H Hs. destruct H as [H|[(ta & tb & Ha & Hb & ->)|(tx & th & Hx & Hh & ->)]].
     + apply Gh. apply Ge. eapply Ub; eauto.
-    + destruct (Hsucc ta Ha) as (L1 & S1). destruct (Se L1) as (Ue & _).
+    + destruct (Hsucc ta Ha) as (L1 & S1). destruct (Se L1) as ((Ue & _) & _).
       apply Gh. rewrite applyv_app. eapply Ue; eauto.
     + rewrite applyv_app. eapply Uh; eauto.
   - intros t H. destruct H as [(ta & tb & Ha & Hb & ->)|[([X|[X|X]] & _)|(tx & Hx & [(th & Hh & ->)|(X & _)])]];
       try discriminate.
-    + destruct (Hsucc ta Ha) as (L1 & S1). destruct (Se L1) as (_ & Ne).
+    + destruct (Hsucc ta Ha) as (L1 & S1). destruct (Se L1) as ((_ & Ne) & _).
       destruct (Ne tb Hb) as (L2 & S2). split.
       * eapply combine_live with (sc := cur e2); [left; reflexivity|apply live_keeps; exact L2|exact Hl].
       * intros v d0 Hs. rewrite applyv_app.
@@ -402,18 +586,46 @@ Proof.
       * intros v d0 Hs. rewrite applyv_app.
         eapply combine_sat with (sc := h); [right; exact Hin|exact Kh|exact Kle_h|].
         apply Shh. eapply Sf; eauto.
+  - intros o t Hj H. destruct H as [(ta & tb & Ha & Hb & ->)|[(_ & Ha)|(tx & Hx & [(th & Hh & ->)|(X & _)])]].
+    + destruct (Hsucc ta Ha) as (L1 & S1). destruct (Se L1) as (_ & Ce).
+      destruct (Ce o tb Hj Hb) as (sc & Hin & Hq1 & Hq2 & Hk & Hs). exists sc.
+      split; [|split; [exact Hq1|split; [exact Hq2|split; [exact (kle_trans _ _ _ Ke1 Hk)|]]]].
+      * right. apply (exits_flow e2 _ sc Hin Hq1); [|exact Le2fin].
+        intros X. apply combine_loops_in; [left; reflexivity|exact X].
+      * intros v d0 Hv. rewrite applyv_app. apply Hs. apply S1. exact Hv.
+    + destruct (Cb o t Hj Ha) as (sc & Hin & Hq1 & Hq2 & Hk & Hs). exists sc.
+      split; [|split; [exact Hq1|split; [exact Hq2|split; [exact Hk|exact Hs]]]].
+      right. apply Le2fin. apply Le. apply Le1. apply (exits_flow s1 _ sc Hin Hq1); [|exact Lsf].
+      apply suppress_inner_loops.
+    + destruct (Chh o th Hj Hh) as (sc & Hin & Hq1 & Hq2 & Hk & Hs). exists sc.
+      split; [|split; [exact Hq1|split; [exact Hq2|split; [exact Hk|]]]].
+      * right. apply in_app_or in Hin. destruct Hin as [Hin|Hin].
+        -- apply combine_loops_in; [right; exact Hin|exact Hq1].
+        -- apply Lfin. exact Hin.
+      * intros v d0 Hv. rewrite applyv_app. apply Hs. eapply Sf; eauto.
+    + exfalso. subst o. destruct Hj; discriminate.
+Qed.
+
+Lemma path_te_no_free_jump : forall b hs e o t,
+  free_jump_b b = false -> free_jump_hs hs = false -> free_jump_b e = false ->
+  path_te b hs e o t -> ~ is_jump o.
+Proof.
+  intros b hs e o t Hb Hh He H. destruct no_free_jump_outcome as (_ & NB & NH).
+  destruct H as [(ta & tb & _ & H & _)|[(_ & H)|(tx & _ & [(th & H & _)|(-> & _)])]]; eauto.
+  intros [X|X]; discriminate.
 Qed.
 
 Lemma case_try : forall b hs e f, P_b b -> P_hs hs -> P_b e -> P_b f -> P_s (STry b hs e f).
 Proof.
-  intros b hs e f IHb IHhs IHe IHf Hj st. cbn [has_jump] in Hj.
-  apply orb_false_iff in Hj. destruct Hj as [Hj Hjf]. apply orb_false_iff in Hj. destruct Hj as [Hj Hje].
-  apply orb_false_iff in Hj. destruct Hj as [Hjb Hjh].
-  pose proof (try_except_ok b hs e IHb IHhs IHe Hjb Hjh Hje) as TE.
+  intros b hs e f IHb IHhs IHe IHf Hok st. cbn [lower_ok_s] in Hok.
+  apply andb_true_iff in Hok. destruct Hok as [Hok Hfin]. apply andb_true_iff in Hok. destruct Hok as [Hok Hokf].
+  apply andb_true_iff in Hok. destruct Hok as [Hok Hoke]. apply andb_true_iff in Hok. destruct Hok as [Hokb Hokh].
+  pose proof (try_except_ok b hs e IHb IHhs IHe Hokb Hokh Hoke) as TE.
   cbn [visit_s]. fold (try_except b hs e).
   destruct f as [|fs fr].
-  - cbn [is_nil]. destruct (TE st) as (G & K & S). split; [exact G|]. split; [exact K|].
-    intros Hl. destruct (S Hl) as (U & N). split.
+  - cbn [is_nil]. destruct (TE st) as (G & K & L & M & S). split; [exact G|]. split; [exact K|].
+    split; [exact L|]. split; [intros _; exact M|].
+    intros Hl. destruct (S Hl) as ((U & N) & C). split; [split|].
     + intros t v u d0 H Hs. cbn [upath_s] in H. destruct H as [H|[H|[H|(o1 & t1 & t2 & _ & H & _)]]].
       * eapply U; eauto. left. exact H.
       * eapply U; eauto. right. left. exact H.
@@ -421,25 +633,36 @@ Proof.
       * destruct H.
     + intros t H. cbn [path_s path_b] in H. destruct H as (o1 & t1 & o2 & t2 & Hte & (-> & ->) & -> & <-).
       rewrite app_nil_r. apply N. exact Hte.
-  - set (f := BCons fs fr) in *. cbn [is_nil].
+    + intros o t Hj H. cbn [path_s path_b] in H. destruct H as (o1 & t1 & o2 & t2 & Hte & (-> & ->) & -> & ->).
+      rewrite app_nil_r. apply (C o1 t1 Hj Hte).
+  - set (f := BCons fs fr) in *. cbn [is_nil orb] in Hfin. apply negb_true_iff in Hfin.
+    apply orb_false_iff in Hfin. destruct Hfin as [Hfin Hjf]. apply orb_false_iff in Hfin. destruct Hfin as [Hfin Hje].
+    apply orb_false_iff in Hfin. destruct Hfin as [Hjb Hjh].
+    cbn [is_nil].
     set (A := assigned_b b ++ assigned_hs hs ++ assigned_b e).
     set (tt := try_except b hs e (fin_te_entry st)).
     set (sf := fin_after_te A st tt).
     set (g1 := fin_first_entry st sf).
     set (g2 := visit_b f g1).
     set (g3 := fin_second_entry st sf g2).
-    destruct (TE (fin_te_entry st)) as (Gt & Kt & St). fold tt in Gt, Kt, St.
-    destruct (IHf Hjf g1) as (Gf1 & Kf1 & Sf1). fold g2 in Gf1, Kf1, Sf1.
-    destruct (IHf Hjf g3) as (Gf2 & Kf2 & Sf2).
+    destruct (TE (fin_te_entry st)) as (Gt & Kt & Lt & _ & St). fold tt in Gt, Kt, Lt, St.
+    destruct (IHf Hokf g1) as (Gf1 & Kf1 & Lf1 & _ & Sf1). fold g2 in Gf1, Kf1, Lf1, Sf1.
+    destruct (IHf Hokf g3) as (Gf2 & Kf2 & Lf2 & Mf2 & Sf2).
     assert (G2 : grow st g2).
     { intros x Hx. apply Gf1. apply Gt. exact Hx. }
     split; [intros x Hx; apply Gf2; apply G2; exact Hx|].
     assert (K3 : kle (vars (cur st)) (vars (cur g3))).
     { apply (combine_kle _ (restore (restore st (snd sf)) g2)). }
     split; [eapply kle_trans; eauto|].
+    split.
+    { intros x Hx. apply Lf2. apply (combine_loops_incl _ (restore (restore st (snd sf)) g2)).
+      apply Lf1. apply (combine_loops_incl _ (enter (restore st (snd sf)))).
+      apply (suppress_loops_incl _ (enter st) tt). apply Lt. exact Hx. }
+    split.
+    { intros _. destruct sets_ll_free as (_ & SF & _). transitivity (ll (cur g3)); [exact (Mf2 (SF f Hjf))|reflexivity]. }
     intros Hl.
     assert (Hl2 : live (cur (fin_te_entry st))) by (destruct Hl; split; cbn; auto).
-    destruct (St Hl2) as (Ut & Nt).
+    destruct (St Hl2) as ((Ut & Nt) & _).
     set (failure := cur (snd sf)).
     assert (Lf : live failure) by (apply suppress_live; apply enter_live; exact Hl).
     assert (Kf : kle (vars (cur st)) (vars failure)) by (apply (suppress_kle _ (enter st) tt)).
@@ -450,8 +673,8 @@ Proof.
     { intros o1 t1 v d0 Hp Hs.
       eapply combine_sat with (sc := failure); [left; reflexivity|apply live_keeps; exact Lf|exact Kf|].
       apply suppress_path_sat; [apply enter_live; exact Hl|eapply path_te_assigned; eauto|exact Hs]. }
-    destruct (Sf1 Lg1) as (Uf1 & _).
-    split.
+    destruct (Sf1 Lg1) as ((Uf1 & _) & _).
+    split; [split|].
     + intros t v u d0 H Hs. cbn [upath_s] in H. destruct H as [H|[H|[H|(o1 & t1 & t2 & Hte & H & ->)]]].
       * apply Gf2. apply Gf1. eapply Ut; eauto. left. exact H.
       * apply Gf2. apply Gf1. eapply Ut; eauto. right. left. exact H.
@@ -462,15 +685,21 @@ Proof.
       destruct (Nt t1 Hte) as (L1 & S1).
       assert (Lg3 : live (cur g3)).
       { eapply combine_live with (sc := cur tt); [left; reflexivity|apply live_keeps; exact L1|exact Hl]. }
-      destruct (Sf2 Lg3) as (_ & Nf2). destruct (Nf2 t2 Hf) as (L2 & S2).
+      destruct (Sf2 Lg3) as ((_ & Nf2) & _). destruct (Nf2 t2 Hf) as (L2 & S2).
       split; [exact L2|]. intros v d0 Hs. rewrite applyv_app. apply S2.
       eapply combine_sat with (sc := cur tt); [left; reflexivity|apply live_keeps; exact L1|exact Kt|].
       apply S1. exact Hs.
+    + intros o t Hj H. exfalso. cbn [path_s] in H. destruct H as (o1 & t1 & o2 & t2 & Hte & Hf & _ & Ho).
+      destruct no_free_jump_outcome as (_ & NB & _).
+      destruct o2; subst o;
+        try (apply (NB f Hjf _ _ Hf); exact Hj);
+        try (destruct Hj; discriminate).
+      apply (path_te_no_free_jump b hs e _ _ Hjb Hjh Hje Hte). exact Hj.
 Qed.
 
 Lemma case_loop : forall fv b e, P_b b -> P_b e -> P_s (SLoop fv b e).
 Proof.
-  intros fv b e IHb IHe Hj st. cbn [has_jump] in Hj. apply orb_false_iff in Hj. destruct Hj as [Hjb Hje].
+  intros fv b e IHb IHe Hok st. cbn [lower_ok_s] in Hok. apply andb_true_iff in Hok. destruct Hok as [Hokb Hoke].
   cbn [visit_s].
   set (m0 := loop_body_entry st).
   set (m1 := visit_b b m0).
@@ -481,48 +710,76 @@ Proof.
   set (st4 := loop_st4 fv st2 o2 e2).
   set (r1 := visit_b b (enter st4)).
   set (body := cur o2).
-  destruct (IHb Hjb m0) as (Gb1 & Kb1 & Sb1). fold m1 in Gb1, Kb1, Sb1.
-  destruct (IHe Hje e1) as (Ge & Ke & Se). fold e2 in Ge, Ke, Se.
-  destruct (IHb Hjb (enter st4)) as (Gb2 & Kb2 & Sb2). fold r1 in Gb2, Kb2, Sb2.
+  set (fin := loop_finish fv (loop_scopes m1) (restore st4 r1)).
+  destruct (IHb Hokb m0) as (Gb1 & Kb1 & _ & _ & Sb1). fold m1 in Gb1, Kb1, Sb1.
+  destruct (IHe Hoke e1) as (Ge & Ke & Le & _ & Se). fold e2 in Ge, Ke, Le, Se.
+  destruct (IHb Hokb (enter st4)) as (Gb2 & Kb2 & Lb2 & _ & Sb2). fold r1 in Gb2, Kb2, Lb2, Sb2.
   assert (Ge1 : grow st e1).
   { intros x Hx. unfold e1. rewrite loop_else_entry_u2d. unfold st2. rewrite loop_st2_u2d.
     apply Gb1. exact Hx. }
   assert (Ge2 : grow st e2) by (eapply grow_trans; eauto).
-  assert (G : grow st (loop_finish fv (loop_scopes m1) (restore st4 r1))).
-  { intros x Hx. rewrite loop_finish_u2d. apply Gb2. apply Ge2. exact Hx. }
+  assert (G : grow st fin).
+  { intros x Hx. unfold fin. rewrite loop_finish_u2d. apply Gb2. apply Ge2. exact Hx. }
   split; [exact G|].
   assert (K2 : kle (vars (cur st)) (vars (cur st2))) by apply loop_st2_kle.
   assert (K4 : kle (vars (cur st2)) (vars (cur st4))) by (apply (combine_kle _ (restore st2 e2))).
-  split; [rewrite loop_finish_vars; exact (kle_trans _ _ _ K2 K4)|].
+  split; [unfold fin; rewrite loop_finish_vars; exact (kle_trans _ _ _ K2 K4)|].
+  assert (L4 : incl (loops e2) (loops st4)) by (apply (combine_loops_incl _ (restore st2 e2))).
+  assert (L4f : incl (loops st4) (loops fin)).
+  { intros x Hx. unfold fin. rewrite loop_finish_loops. apply Lb2. exact Hx. }
+  assert (Lst : incl (loops st) (loops e1)).
+  { intros x Hx. apply loop_else_entry_loops. apply loop_st2_loops.
+    apply (combine_loops_incl _ (mkState (cur (enter st)) (loops st) (u2d m1))). exact Hx. }
+  split; [intros x Hx; apply L4f; apply L4; apply Le; apply Lst; exact Hx|].
+  split.
+  { intros _. unfold fin. rewrite loop_finish_ll. cbn [restore cur]. unfold st4, loop_st4. cbn [combine cur ll restore].
+    apply loop_st2_ll. }
   intros Hl.
   assert (Lm0 : live (cur m0)) by (destruct Hl; split; cbn; auto).
-  destruct (Sb1 Lm0) as (Ub1 & Nb1).
+  destruct (Sb1 Lm0) as ((Ub1 & Nb1) & Cb1).
   assert (Kbody : kle (vars (cur st)) (vars body)).
   { apply (combine_kle _ (mkState (cur (enter st)) (loops st) (u2d m1))). }
-  (* one completed round started in the state before the loop *)
-  assert (F1 : forall t, path_b b ONorm t -> live body /\
+  assert (LX : live (cur (mkState (cur (enter st)) (loops st) (u2d m1)))) by (destruct Hl; split; cbn; auto).
+  (* one round started in the state before the loop, ending normally or in break/continue *)
+  assert (F1 : forall o t, o = ONorm \/ is_jump o -> path_b b o t -> live body /\
              forall v d0, satv v d0 (cur st) -> satv v (applyv t v d0) body).
-  { intros t Ht. destruct (Nb1 t Ht) as (L1 & S1).
-    assert (Hk : keeps (strip_ll (cur m1)) = true) by (apply live_keeps; destruct L1; split; cbn; auto).
-    split.
-    - eapply combine_live with (sc := strip_ll (cur m1)); [left; reflexivity|exact Hk|].
-      cbn. destruct Hl; split; cbn; auto.
-    - intros v d0 Hs. eapply combine_sat with (sc := strip_ll (cur m1)); [left; reflexivity|exact Hk|exact Kb1|].
-      apply (S1 v d0). exact Hs. }
+  { intros o t [->|Hj] Ht.
+    - destruct (Nb1 t Ht) as (L1 & S1).
+      assert (Hk : keeps (strip_ll (cur m1)) = true) by (apply live_keeps; destruct L1; split; cbn; auto).
+      split.
+      + eapply combine_live with (sc := strip_ll (cur m1)); [left; reflexivity|exact Hk|exact LX].
+      + intros v d0 Hs. eapply combine_sat with (sc := strip_ll (cur m1)); [left; reflexivity|exact Hk|exact Kb1|].
+        apply (S1 v d0). exact Hs.
+    - destruct (Cb1 o t Hj Ht) as (sc & Hin & Hq1 & Hq2 & Hk1 & Hs).
+      assert (Hk : keeps (strip_ll sc) = true) by (unfold keeps; cbn; rewrite Hq2; reflexivity).
+      assert (HinL : In (strip_ll sc) (map strip_ll (loop_scopes m1))) by (apply in_map; exact Hin).
+      split.
+      + eapply combine_live with (sc := strip_ll sc); [exact HinL|exact Hk|exact LX].
+      + intros v d0 Hv. eapply combine_sat with (sc := strip_ll sc); [exact HinL|exact Hk|exact Hk1|].
+        apply (Hs v d0). exact Hv. }
   (* the binding at the loop head: the one before the loop, or one possible after the body *)
   assert (F2 : forall th, iters (fun x => path_b b ONorm x \/ path_b b OCont x) th ->
              forall v d0, satv v d0 (cur st) ->
              applyv th v d0 = d0 \/ (live body /\ satv v (applyv th v d0) body)).
   { intros th Hi. induction Hi as [|t1 t2 H1 IH H2]; intros v d0 Hs; [left; reflexivity|].
-    destruct H2 as [H2|H2]; [|exfalso; destruct no_jump_outcome as (_ & NJ & _); apply (NJ b Hjb _ _ H2); right; reflexivity].
-    destruct (F1 t2 H2) as (Lb & Sb). rewrite applyv_app.
+    assert (HF : live body /\ forall v d0, satv v d0 (cur st) -> satv v (applyv t2 v d0) body).
+    { destruct H2 as [H2|H2]; [apply (F1 ONorm t2); auto|apply (F1 OCont t2); auto].
+      right. right. reflexivity. }
+    destruct HF as (Lb & Sb). rewrite applyv_app.
     destruct (applyv_cases t2 v (applyv t1 v d0) d0) as [E|(E1 & E2)].
     - right. split; [exact Lb|]. rewrite E. apply Sb. exact Hs.
     - destruct (IH v d0 Hs) as [E3|(_ & S3)].
       + left. rewrite E1. exact E3.
       + right. split; [exact Lb|]. rewrite E1. exact S3. }
-  (* the entry state of the second visit covers everything possible after the body *)
-  assert (F3 : live body -> live (cur (enter st4)) /\ forall v a, satv v a body -> satv v a (cur (enter st4))).
+  (* a round from a head state ends in a binding possible after the body *)
+  assert (F2' : forall o t2 v d0 a, o = ONorm \/ is_jump o -> path_b b o t2 -> satv v d0 (cur st) ->
+             (a = d0 \/ (live body /\ satv v a body)) -> live body /\ satv v (applyv t2 v a) body).
+  { intros o t2 v d0 a Ho Hp Hs Ha. destruct (F1 o t2 Ho Hp) as (Lb & Sb). split; [exact Lb|].
+    destruct (applyv_cases t2 v a d0) as [E|(E1 & E2)].
+    - rewrite E. apply Sb. exact Hs.
+    - rewrite E1. destruct Ha as [->|(_ & Sa)]; [|exact Sa]. rewrite <- E2. apply Sb. exact Hs. }
+  (* the state after the loop covers everything possible after the body *)
+  assert (F3 : live body -> live (cur st4) /\ forall v a, satv v a body -> satv v a (cur st4)).
   { intros Lb. unfold st4, loop_st4, st2, loop_st2, loop_bs. destruct fv.
     - set (c2 := combine [cur o2] (restore st o2)).
       assert (Lc2 : live (cur c2)).
@@ -531,11 +788,11 @@ Proof.
       { intros v a Hs. eapply combine_sat with (sc := body); [left; reflexivity|apply live_keeps; exact Lb|exact Kbody|exact Hs]. }
       assert (Hk : keeps (strip_ls (cur c2)) = true) by (apply live_keeps; destruct Lc2; split; cbn; auto).
       split.
-      + apply enter_live. eapply combine_live with (sc := strip_ls (cur c2)); [left; reflexivity|exact Hk|exact Lc2].
+      + eapply combine_live with (sc := strip_ls (cur c2)); [left; reflexivity|exact Hk|exact Lc2].
       + intros v a Hs. apply (combine_sat _ (restore c2 e2) (strip_ls (cur c2))); [left; reflexivity|exact Hk|apply kle_refl|].
         apply Sc2. exact Hs.
     - split.
-      + apply enter_live. eapply combine_live with (sc := body); [left; reflexivity|apply live_keeps; exact Lb|exact Hl].
+      + eapply combine_live with (sc := body); [left; reflexivity|apply live_keeps; exact Lb|exact Hl].
       + intros v a Hs. apply (combine_sat _ (restore (restore st o2) e2) body); [left; reflexivity|apply live_keeps; exact Lb|exact Kbody|exact Hs]. }
   (* the else clause (only for loops that may end normally) *)
   assert (F4 : fv = false -> is_nil e = false -> live (cur e1) /\
@@ -548,79 +805,133 @@ Proof.
     - intros v d0 a Hs [->|(Lb & Sa)].
       + apply (combine_sat _ x (cur x)); [left; reflexivity|apply live_keeps; exact Lx|apply kle_refl|exact Hs].
       + apply (combine_sat _ x body); [right; left; reflexivity|apply live_keeps; exact Lb|exact Kbody|exact Sa]. }
+  assert (Ke1 : kle (vars (cur st)) (vars (cur e1))).
+  { unfold e1, loop_else_entry. destruct (negb (is_nil e) && negb fv).
+    - eapply kle_trans; [exact K2|]. apply (combine_kle _ (enter st2)).
+    - exact K2. }
   assert (Gm1 : incl (u2d m1) (u2d r1)).
   { intros x Hx. apply Gb2. apply Ge. unfold e1. rewrite loop_else_entry_u2d. unfold st2. rewrite loop_st2_u2d. exact Hx. }
-  destruct no_jump_outcome as (_ & NJ & _).
-  split.
+  split; [split|].
   - intros t v u d0 H Hs. cbn [upath_s] in H. destruct H as (th & t2 & Hi & -> & H).
-    rewrite loop_finish_u2d. cbn [restore u2d]. rewrite applyv_app.
+    unfold fin. rewrite loop_finish_u2d. cbn [restore u2d]. rewrite applyv_app.
     pose proof (F2 th Hi v d0 Hs) as Hd.
     destruct H as [H|(-> & H)].
     + destruct Hd as [E|(Lb & Sa)].
       * rewrite E. apply Gm1. eapply Ub1; eauto.
-      * destruct (F3 Lb) as (L4 & S4). destruct (Sb2 L4) as (Ub2 & _). eapply Ub2; eauto.
+      * destruct (F3 Lb) as (L4' & S4). destruct (Sb2 (enter_live _ L4')) as ((Ub2 & _) & _). apply (Ub2 t2 v u _ H). apply S4. exact Sa.
     + destruct e as [|es er]; [destruct H|]. destruct (F4 eq_refl eq_refl) as (Le1 & Se1).
-      destruct (Se Le1) as (Ue & _). apply Gb2. eapply Ue; eauto.
+      destruct (Se Le1) as ((Ue & _) & _). apply Gb2. eapply Ue; eauto.
   - intros t H. cbn [path_s] in H. destruct H as (th & t2 & Hi & -> & H).
-    destruct H as [(-> & He)|[(_ & Hbrk)|([X|X] & _)]]; try discriminate;
-      [|exfalso; apply (NJ b Hjb _ _ Hbrk); left; reflexivity].
-    unfold loop_finish. cbn [andb restore cur].
-    destruct e as [|es er].
-    + cbn [path_b] in He. destruct He as (_ & ->). rewrite app_nil_r.
-      assert (Lx : live (cur e2)) by (destruct Hl; split; cbn; auto).
-      split.
-      * apply (combine_live _ (restore st2 e2) (cur e2)); [right; left; reflexivity|apply live_keeps; exact Lx|exact Hl].
-      * intros v d0 Hs. destruct (F2 th Hi v d0 Hs) as [E|(Lb & Sa)].
-        -- rewrite E. apply (combine_sat _ (restore st2 e2) (cur e2)); [right; left; reflexivity|apply live_keeps; exact Lx|apply kle_refl|exact Hs].
-        -- apply (combine_sat _ (restore st2 e2) body); [left; reflexivity|apply live_keeps; exact Lb|exact Kbody|exact Sa].
-    + destruct (F4 eq_refl eq_refl) as (Le1 & Se1). destruct (Se Le1) as (_ & Ne).
-      destruct (Ne t2 He) as (L2 & S2).
-      assert (Kx : kle (vars (cur st)) (vars (cur e2))).
-      { eapply kle_trans; [|exact Ke]. apply (combine_kle _ (enter (restore st o2))). }
-      split.
-      * apply (combine_live _ (restore st2 e2) (cur e2)); [right; left; reflexivity|apply live_keeps; exact L2|exact Hl].
-      * intros v d0 Hs. rewrite applyv_app.
-        apply (combine_sat _ (restore st2 e2) (cur e2)); [right; left; reflexivity|apply live_keeps; exact L2|exact Kx|].
-        apply S2. apply (Se1 v d0); auto.
+    destruct H as [(-> & He)|[(_ & Hbrk)|([X|X] & _)]]; try discriminate.
+    + unfold fin, loop_finish. cbn [andb restore cur].
+      destruct e as [|es er].
+      * cbn [path_b] in He. destruct He as (_ & ->). rewrite app_nil_r.
+        assert (Lx : live (cur e2)) by (destruct Hl; split; cbn; auto).
+        split.
+        -- apply (combine_live _ (restore st2 e2) (cur e2)); [right; left; reflexivity|apply live_keeps; exact Lx|exact Hl].
+        -- intros v d0 Hs. destruct (F2 th Hi v d0 Hs) as [E|(Lb & Sa)].
+           ++ rewrite E. apply (combine_sat _ (restore st2 e2) (cur e2)); [right; left; reflexivity|apply live_keeps; exact Lx|apply kle_refl|exact Hs].
+           ++ apply (combine_sat _ (restore st2 e2) body); [left; reflexivity|apply live_keeps; exact Lb|exact Kbody|exact Sa].
+      * destruct (F4 eq_refl eq_refl) as (Le1 & Se1). destruct (Se Le1) as ((_ & Ne) & _).
+        destruct (Ne t2 He) as (L2 & S2).
+        split.
+        -- apply (combine_live _ (restore st2 e2) (cur e2)); [right; left; reflexivity|apply live_keeps; exact L2|exact Hl].
+        -- intros v d0 Hs. rewrite applyv_app.
+           apply (combine_sat _ (restore st2 e2) (cur e2)); [right; left; reflexivity|apply live_keeps; exact L2|exact (kle_trans _ _ _ Ke1 Ke)|].
+           apply S2. apply (Se1 v d0); auto.
+    + (* left through break *)
+      assert (Hjb : is_jump OBrk) by (left; reflexivity).
+      destruct (Cb1 OBrk t2 Hjb Hbrk) as (sc & Hin & Hq1 & _).
+      unfold fin. rewrite (loop_finish_keep fv _ _ sc Hin Hq1). cbn [restore cur].
+      destruct (F1 OBrk t2 (or_intror Hjb) Hbrk) as (Lb & _).
+      destruct (F3 Lb) as (L4' & S4). split; [exact L4'|].
+      intros v d0 Hs. rewrite applyv_app. apply S4.
+      apply (F2' OBrk t2 v d0 _ (or_intror Hjb) Hbrk Hs). apply F2; assumption.
+  - intros o t Hj H. cbn [path_s] in H. destruct H as (th & t2 & Hi & -> & H).
+    destruct H as [(-> & He)|[(X & _)|([X|X] & _)]];
+      try (exfalso; subst o; destruct Hj; discriminate).
+    destruct e as [|es er]; [exfalso; cbn in He; destruct He as (X & _); apply (jump_not_norm o Hj X)|].
+    destruct (F4 eq_refl eq_refl) as (Le1 & Se1). destruct (Se Le1) as (_ & Ce).
+    destruct (Ce o t2 Hj He) as (sc & Hin & Hq1 & Hq2 & Hk & Hs). exists sc.
+    split; [|split; [exact Hq1|split; [exact Hq2|split; [exact (kle_trans _ _ _ Ke1 Hk)|]]]].
+    + right. apply L4f. apply (exits_flow e2 _ sc Hin Hq1); [|exact L4].
+      intros X. apply combine_loops_in; [right; left; reflexivity|exact X].
+    + intros v d0 Hv. rewrite applyv_app. apply Hs. apply (Se1 v d0); auto.
 Qed.
 
 Lemma sound_all : (forall s, P_s s) /\ (forall b, P_b b) /\ (forall hs, P_hs hs).
 Proof.
   apply syntax_mutind.
   - (* SAssign *) intros v d _ st. cbn [visit_s]. split; [intros x Hx; exact Hx|]. split; [apply kle_upd|].
-    intros Hl. split.
+    split; [apply incl_refl|]. split; [intros _; reflexivity|].
+    intros Hl. split; [split|].
     + intros t w u d0 H. destruct H.
     + intros t (_ & ->). split; [exact Hl|]. intros w d0 Hs. apply set_var_sat. exact Hs.
+    + intros o t Hj (X & _). exfalso. apply (jump_not_norm o Hj X).
   - (* SUse *) intros v u _ st. cbn [visit_s]. split; [intros x Hx; apply in_or_app; left; exact Hx|].
-    split; [apply kle_refl|]. intros Hl. split.
+    split; [apply kle_refl|]. split; [apply incl_refl|]. split; [intros _; reflexivity|].
+    intros Hl. split; [split|].
     + intros t w u' d0 (<- & <- & ->) Hs. apply get_var_in. exact Hs.
     + intros t (_ & ->). split; [exact Hl|]. intros w d0 Hs. exact Hs.
+    + intros o t Hj (X & _). exfalso. apply (jump_not_norm o Hj X).
   - (* SCall *) intros _ st. cbn [visit_s]. split; [apply grow_refl|]. split; [apply kle_refl|].
-    intros Hl. split; [intros t w u d0 H; destruct H|].
-    intros t (_ & ->). split; [exact Hl|]. intros w d0 Hs. exact Hs.
+    split; [apply incl_refl|]. split; [intros _; reflexivity|].
+    intros Hl. split; [split|].
+    + intros t w u d0 H; destruct H.
+    + intros t (_ & ->). split; [exact Hl|]. intros w d0 Hs. exact Hs.
+    + intros o t Hj ([X|X] & _); exfalso; subst o; destruct Hj; discriminate.
   - (* SPass *) intros _ st. cbn [visit_s]. split; [apply grow_refl|]. split; [apply kle_refl|].
-    intros Hl. split; [intros t w u d0 H; destruct H|].
-    intros t (_ & ->). split; [exact Hl|]. intros w d0 Hs. exact Hs.
+    split; [apply incl_refl|]. split; [intros _; reflexivity|].
+    intros Hl. split; [split|].
+    + intros t w u d0 H; destruct H.
+    + intros t (_ & ->). split; [exact Hl|]. intros w d0 Hs. exact Hs.
+    + intros o t Hj (X & _). exfalso. apply (jump_not_norm o Hj X).
   - (* SReturn *) intros _ st. cbn [visit_s]. split; [intros x Hx; exact Hx|]. split; [apply kle_refl|].
-    intros Hl. split; [intros t w u d0 H; destruct H|]. intros t (X & _). discriminate.
+    split; [apply incl_refl|]. split; [intros _; reflexivity|].
+    intros Hl. split; [split|].
+    + intros t w u d0 H; destruct H.
+    + intros t (X & _). discriminate.
+    + intros o t Hj (X & _). exfalso. subst o. destruct Hj; discriminate.
   - (* SRaise *) intros _ st. cbn [visit_s]. split; [intros x Hx; exact Hx|]. split; [apply kle_refl|].
-    intros Hl. split; [intros t w u d0 H; destruct H|]. intros t (X & _). discriminate.
-  - intros H. discriminate.
-  - intros H. discriminate.
+    split; [apply incl_refl|]. split; [intros _; reflexivity|].
+    intros Hl. split; [split|].
+    + intros t w u d0 H; destruct H.
+    + intros t (X & _). discriminate.
+    + intros o t Hj (X & _). exfalso. subst o. destruct Hj; discriminate.
+  - (* SBreak *) intros _ st. cbn [visit_s]. split; [intros x Hx; exact Hx|]. split; [apply kle_refl|].
+    split; [apply incl_refl|]. split; [intros X; discriminate|].
+    intros Hl. split; [split|].
+    + intros t w u d0 H; destruct H.
+    + intros t (X & _). discriminate.
+    + intros o t Hj (_ & ->). exists (cur (set_ll st)). split; [left; reflexivity|].
+      split; [reflexivity|]. split; [destruct Hl as [H1 _]; exact H1|]. split; [apply kle_refl|].
+      intros v d0 Hs. exact Hs.
+  - (* SContinue *) intros _ st. cbn [visit_s]. split; [intros x Hx; exact Hx|]. split; [apply kle_refl|].
+    split; [apply incl_refl|]. split; [intros X; discriminate|].
+    intros Hl. split; [split|].
+    + intros t w u d0 H; destruct H.
+    + intros t (X & _). discriminate.
+    + intros o t Hj (_ & ->). exists (cur (set_ll st)). split; [left; reflexivity|].
+      split; [reflexivity|]. split; [destruct Hl as [H1 _]; exact H1|]. split; [apply kle_refl|].
+      intros v d0 Hs. exact Hs.
   - intros b Hb e He. apply case_if; assumption.
   - intros fv b Hb e He. apply case_loop; assumption.
   - intros sup b Hb. apply case_with; assumption.
   - intros b Hb hs Hhs e He f Hf. apply case_try; assumption.
   - (* BNil *) intros _ st. cbn [visit_b]. split; [apply grow_refl|]. split; [apply kle_refl|].
-    intros Hl. split; [intros t w u d0 H; destruct H|].
-    intros t (_ & ->). split; [exact Hl|]. intros w d0 Hs. exact Hs.
+    split; [apply incl_refl|]. split; [intros _; reflexivity|].
+    intros Hl. split; [split|].
+    + intros t w u d0 H; destruct H.
+    + intros t (_ & ->). split; [exact Hl|]. intros w d0 Hs. exact Hs.
+    + intros o t Hj (X & _). exfalso. apply (jump_not_norm o Hj X).
   - intros s Hs r Hr. apply case_bcons; assumption.
   - (* HNil *) intros _ dummy failure o. cbn [visit_hs fst snd]. split; [apply grow_refl|]. split; [reflexivity|].
-    split; [constructor|]. intros _ _ _. split; [intros t v u d0 H; destruct H|intros t H; destruct H].
+    split; [apply incl_refl|]. split; [constructor|]. intros _ _ _.
+    split; [intros t v u d0 H; destruct H|]. split; [intros t H; destruct H|intros o' t _ H; destruct H].
   - intros h Hh r Hr. apply case_hcons; assumption.
 Qed.
 
-(* ---- the lower-bound theorem for programs without break/continue *)
+(* ---- the lower-bound theorem *)
 
 Lemma in_analyse_reported : forall p u d, In (u, d) (analyse p) -> In d (reported p u).
 Proof.
@@ -628,21 +939,33 @@ Proof.
   apply filter_In. split; [exact H|]. cbn. apply N.eqb_refl.
 Qed.
 
-Theorem strict_sub_reported_nojump : forall p u d,
-  has_jump_b p = false -> strict_reach p u d -> In d (reported p u).
+Lemma block_invariant : forall b st, lower_ok_b b = true -> live (cur st) ->
+  (forall t v u d0, upath_b b t v u -> satv v d0 (cur st) -> In (u, applyv t v d0) (u2d (visit_b b st))) /\
+  (forall t, path_b b ONorm t -> live (cur (visit_b b st)) /\
+     forall v d0, satv v d0 (cur st) -> satv v (applyv t v d0) (cur (visit_b b st))) /\
+  (forall o t, is_jump o -> path_b b o t ->
+     exists sc, In sc (exits (visit_b b st)) /\ ll sc = true /\ ls sc = false /\
+       forall v d0, satv v d0 (cur st) -> satv v (applyv t v d0) sc).
 Proof.
-  intros p u d Hj (t & v & Hu & ->). apply in_analyse_reported. unfold analyse.
-  destruct sound_all as (_ & Pb & _). destruct (Pb p Hj init) as (_ & _ & S).
+  intros b st Hok Hl. destruct sound_all as (_ & Pb & _). destruct (Pb b Hok st) as (_ & _ & _ & _ & S).
+  destruct (S Hl) as ((U & N) & C). split; [exact U|]. split; [exact N|].
+  intros o t Hj H. destruct (C o t Hj H) as (sc & H1 & H2 & H3 & _ & H5). exists sc. auto.
+Qed.
+
+Theorem strict_sub_reported : forall p u d,
+  lower_ok p = true -> strict_reach p u d -> In d (reported p u).
+Proof.
+  intros p u d Hok (t & v & Hu & ->). apply in_analyse_reported. unfold analyse.
   assert (Hl : live (cur init)) by (split; reflexivity).
-  destruct (S Hl) as (U & _). apply (U t v u UN Hu). left. reflexivity.
+  destruct (block_invariant p init Hok Hl) as (U & _). apply (U t v u UN Hu). left. reflexivity.
 Qed.
 
 (* a use that can execute with the name unbound is reported undefined or possibly undefined *)
-Theorem unbound_is_reported_nojump : forall p u,
-  has_jump_b p = false -> strict_reach p u UN ->
+Theorem unbound_is_reported : forall p u,
+  lower_ok p = true -> strict_reach p u UN ->
   undefined_name p u = true \/ possibly_undefined p u = true.
 Proof.
-  intros p u Hj H. pose proof (strict_sub_reported_nojump p u UN Hj H) as Hin.
+  intros p u Hok H. pose proof (strict_sub_reported p u UN Hok H) as Hin.
   unfold undefined_name, possibly_undefined.
   destruct (only_un (reported p u)); [left; reflexivity|right].
   rewrite andb_true_r. apply existsb_exists. exists UN. split; [exact Hin|apply N.eqb_refl].
@@ -679,12 +1002,3 @@ Qed.
 
 Lemma nojump_lower_ok : forall p, has_jump_b p = false -> lower_ok p = true.
 Proof. intros p H. destruct nojump_lower_ok_all as (_ & Hb & _). apply (Hb p H). Qed.
-
-Lemma block_invariant : forall b st, has_jump_b b = false -> live (cur st) ->
-  (forall t v u d0, upath_b b t v u -> satv v d0 (cur st) -> In (u, applyv t v d0) (u2d (visit_b b st))) /\
-  (forall t, path_b b ONorm t -> live (cur (visit_b b st)) /\
-     forall v d0, satv v d0 (cur st) -> satv v (applyv t v d0) (cur (visit_b b st))).
-Proof.
-  intros b st Hj Hl. destruct sound_all as (_ & Pb & _). destruct (Pb b Hj st) as (_ & _ & S).
-  exact (S Hl).
-Qed.
